@@ -66,6 +66,24 @@ pub fn run(thorough: bool, seed: u64, w: &mut impl std::io::Write) {
             n += 1;
         }
     }
+    // terminators at every offset of inputs up to 40 bytes (alignment-sensitive searches), over fillers incl. bytes >= 0x80
+    for len in 0..=40usize {
+        for p in 0..len {
+            for filler in [0x61u8, 0x80, 0xff, b'\r', 0x0a ^ 0x80, 0x7f, 0x01, 0x0b, 0x0e, 0x09] {
+                for term in [&b"\n"[..], b"\r\n", b"\0", b"\r\r\n", b"\n\n"] {
+                    if p + term.len() > len {
+                        continue;
+                    }
+                    let mut s = vec![filler; len];
+                    s[p..p + term.len()].copy_from_slice(term);
+                    for f in provided {
+                        line(f, &s, w);
+                        n += 1;
+                    }
+                }
+            }
+        }
+    }
     // the test deframers too (they are part of the T1/T2 ties)
     for s in strings(&[b'a', b'x', b'\n', 1, 2], 4) {
         for f in [Df::Reject, Df::RejectX, Df::LenPrefix] {
